@@ -4,7 +4,8 @@
    C08: the observe machinery calls the property's handler exactly once for a mutation that changes the
    observed view, only for mutations of matched dependencies and at most once per mutation. *)
 From Coq Require Import ZArith List Bool Arith Lia.
-From TV Require Import C12.Model C12.Law C12.Proofs.
+From TV Require Import C12.Model C12.Law C12.Proofs C12.Compose.
+From TV Require C09.Model C09.Proofs.
 Import ListNotations.
 Open Scope Z_scope.
 
@@ -50,6 +51,27 @@ Theorem law_holds_on_every_faithful_history :
 Proof. exact law_model. Qed.
 Print Assumptions law_holds_on_every_faithful_history.
 
+(* The interface hypothesis is a THEOREM of the C09 registration model for changes of scalar
+   dependencies on a fixed object graph: with the property's handler (hd, x, dp) registered once on the
+   expression gs when the object x is created, a change of the trait o delivers to the handler exactly
+   once iff the registration placed a user notifier on o ([targets]), so the mutation step built from it
+   is faithful for the view "values of the targets".  (With mutations of the object graph in between,
+   the hypothesis is property C08.) *)
+Theorem static_scalar_changes_are_faithful :
+  forall (h : C09.Model.heap) (x : C09.Model.oid) (hd dp : nat) (gs : list C09.Model.graph)
+         (s0 s1 : C09.Model.state) (ob : C09.Model.obs),
+    C09.Proofs.wfH (C09.Model.st_hooks s0) ->
+    (forall o, C09.Proofs.cntH (C09.Model.st_hooks s0) o (C09.Proofs.CK (C09.Model.AUser (hd, x, dp))) = 0%nat) ->
+    C09.Model.step h s0 (C09.Model.Register x hd dp gs) = (s1, ob) -> C09.Model.o_out ob = None ->
+    C09.Model.alive s1 (hd, x, dp) = true ->
+    forall (cs : state World) (o : C09.Model.obsv) (v : Z) s2 ob2,
+      C09.Model.step h s1 (C09.Model.Change (fst o) (snd o)) = (s2, ob2) ->
+      faithful World (view h x hd dp gs) cs
+               (Mut (wupd (world cs) o v) (existsb (C09.Model.obsv_eqb o) (targets h x hd dp gs))
+                    (C09.Proofs.ncalls (hd, x, dp) (C09.Model.o_calls ob2))).
+Proof. exact Compose.static_scalar_changes_are_faithful. Qed.
+Print Assumptions static_scalar_changes_are_faithful.
+
 (* ---------- non-vacuity: a world of two numbers, the getter reads only the first ---------- *)
 Definition exW := (Z * Z)%type.
 Definition ex_f (w : exW) : Z := 3 * fst w + 1.
@@ -70,3 +92,19 @@ Example history_nontrivial :
      (None, 0%nat, []); (None, 0%nat, []); (Some 13, 1%nat, []); (Some 13, 0%nat, []); (None, 0%nat, []);
      (Some 13, 1%nat, [])].
 Proof. vm_compute. reflexivity. Qed.
+
+(* non-vacuity of the composition: object 0 with child 1 (field 3), expression child.value (field 2) *)
+Definition cx_heap : C09.Model.heap :=
+  C09.Model.mkHeap (fun _ => C09.Model.KObj)
+                   (fun x f => ((x =? 0) || (x =? 1))%nat && ((f =? 1) || (f =? 2) || (f =? 3))%nat)
+                   (fun x f => if ((x =? 0) && (f =? 3))%nat then [1%nat] else []) (fun _ => []).
+Example composition_nontrivial :
+  let g := C09.Model.G (C09.Model.NNamed 3%nat true false) [C09.Model.G (C09.Model.NNamed 2%nat true false) []] in
+  let s0 := C09.Model.mkState (fun _ => []) [] [] in
+  let '(s1, ob) := C09.Model.step cx_heap s0 (C09.Model.Register 0%nat 7%nat 0%nat [g]) in
+  C09.Model.o_out ob = None /\ C09.Model.alive s1 (7, 0, 0)%nat = true
+  /\ targets cx_heap 0%nat 7%nat 0%nat [g] = [(0, 3); (1, 2)]%nat
+  /\ map (fun o => C09.Proofs.ncalls (7, 0, 0)%nat
+                     (C09.Model.o_calls (snd (C09.Model.step cx_heap s1 (C09.Model.Change (fst o) (snd o))))))
+         [(1, 2); (0, 2); (0, 3)]%nat = [1; 0; 1]%nat.
+Proof. vm_compute. repeat split; reflexivity. Qed.
